@@ -256,9 +256,16 @@ class Representation(RepresentationBaseType):
                 tol = tolerance >> 1
             else:
                 tol = tolerance
+            first_decode_time: int | None = None
+            if idx == 0 and self.mode == 'vod':
+                # the first segment of an on-demand stream starts at the
+                # presentation time offset. The decode times of the following
+                # segments are checked against the end of their predecessor
+                first_decode_time = decode_time
             ms = MediaSegment(self, url=url,
                               presentation_time_offset=presentation_time_offset,
                               expected_seg_num=seg_num, tolerance=tol,
+                              expected_decode_time=first_decode_time,
                               expected_duration=seg_duration)
             if self.mode == 'live':
                 ms.set_segment_availability(
